@@ -57,6 +57,20 @@ def gen_file(rng):
         # a known section whose items are neither potentials nor forms ([Species]): its items are items of the file like any other (seed C14_6)
         sp = rng.choice(species)
         secs["Species"] = [["%s.atomic_mass" % sp, "12.5"], ["%s.charge" % sp, "-2.0"]][: rng.randint(1, 2)]
+    # sections other targets read (EAM, Finnis-Sinclair, ADP): a pair target does not use them, but their items are items of the file all the same - listed once,
+    # overridable, removable (round-6 seed C14_12: a section dropped from the listing by a change of the parser's section registry)
+    for sname, style in (("EAM-Embed", "one"), ("EAM-Density", rng.choice(["one", "arrow"])), ("EAM-ADP-Dipole", "pair"), ("EAM-ADP-Quadrupole", "pair")):
+        if rng.random() < 0.25:
+            ents, used = [], set()
+            for _ in range(rng.randint(1, 3)):
+                a, b = rng.choice(species), rng.choice(species)
+                key = a if style == "one" else ("%s->%s" % (a, b) if style == "arrow" else "%s-%s" % (a, b))
+                ident = key if style != "pair" else "-".join(sorted((a, b)))
+                if ident in used:
+                    continue
+                used.add(ident)
+                ents.append([variant(rng, key) if style == "pair" else key, rng.choice(["as.sqrt %d.0" % rng.randint(1, 9), "as.zero", "as.exponential 1.0 %d.0" % rng.randint(1, 4)])])
+            secs[sname] = ents
     return secs, species
 
 
@@ -348,6 +362,29 @@ def cli_edge_scenarios(run):
         if outcome(r) != "config_error":
             run.fail("item-value", "--item-value %s (no such item): %s, expected a configuration error" % (key, outcome(r)), dict(potable_file=base, command_line=["--item-value", key]))
 
+
+    # (e) an item given with an EMPTY section name (':KEY'): no file holds a section without a name (the INI reader refuses a '[]' header), so the item does not exist:
+    #     overriding or removing it is a configuration error, and so is adding it (the edited file could not be written by hand) - on the command line and through
+    #     ConfigParser(overrides=, additional=); never a traceback, never a table
+    for opt, item in (("-e", ":A=5.0"), ("-r", ":A"), ("-a", ":B=5.0"), ("-e", ":nokey=1")):
+        r = impl.potable_cli(base, args=[opt, item])
+        run.case(key=("cli-edge", "empty-section", opt, item), kind="cli-edge/empty-section-name")
+        run.traces += 1
+        if outcome(r) != "config_error":
+            run.fail("override-empty-section", "potable %s %r (an item of a section without a name - no such item can exist in a file): %s, expected a configuration error" % (opt, item, outcome(r)),
+                     dict(potable_file=base, command_line=[opt, item]))
+        sk = item.split("=", 1)[0].rsplit(":", 1)
+        val = None if opt == "-r" else item.split("=", 1)[1]
+        try:
+            ConfigParser(io.StringIO(base), **({"additional": [T(sk[0], sk[1], val)]} if opt == "-a" else {"overrides": [T(sk[0], sk[1], val)]}))
+            a = "ok"
+        except ConfigurationException:
+            a = "config_error"
+        except Exception as e:
+            a = "internal: %s: %s" % (type(e).__name__, e)
+        if a != "config_error":
+            run.fail("override-empty-section", "ConfigParser(%s=[(%r, %r, %r)]): %s, expected a configuration error" % ("additional" if opt == "-a" else "overrides", sk[0], sk[1], val, a),
+                     dict(potable_file=base, operation=[opt, item]))
 
     # (d) placeholders whose resolution the edits change: a variable defined only by an addition, a variable overridden, a variable removed while it is still used,
     #     a value overridden with one that names an undefined variable - each must behave as the file edited by hand does (bytes, or configuration error), on the
